@@ -428,6 +428,18 @@ func runCheck(args []string) int {
 		for _, h := range ts.Harnesses {
 			hs = append(hs, strings.TrimPrefix(h.Func, "github.com/HobbyOSs/gosk/"))
 		}
+		if len(spec.Bounds) == 0 {
+			// bounds are documented per property in claims.json (level note)
+			if b, err := os.ReadFile(filepath.Join(*verif, "claims.json")); err == nil {
+				var cl map[string]map[string]string
+				if json.Unmarshal(b, &cl) == nil {
+					if e, ok := cl[*prop]; ok {
+						spec.Bounds = []string{e["text"]}
+						spec.OutsideBounds = []string{e["note"]}
+					}
+				}
+			}
+		}
 		if len(samples) == 0 {
 			samples = append(samples, map[string]interface{}{"note": "no completed path sampled"})
 		}
